@@ -429,6 +429,32 @@ fn large_size_history<V: TV>(m: usize, val: &dyn Fn(u64) -> V) -> Result<u64, St
     }
 }
 
+/// 70000 cycles of (a few updates, reset) on one tracker: after every reset the node array equals a new tracker's
+/// (the read-only probe does not perturb the history)
+fn long_reset_history<V: TV>(m: usize, val: &dyn Fn(u64) -> V) -> Result<u64, String> {
+    let r = guarded_mut(|| -> Result<u64, String> {
+        let fresh: Vec<u64> = MaxTracker::<V>::new(m).raw().iter().map(|v| v.to_b()).collect();
+        let mut t = MaxTracker::<V>::new(m);
+        let mut steps = 0u64;
+        for c in 0..70_000u64 {
+            for i in 0..3u64 {
+                t.update(((c + i) % m as u64) as usize, val(10 + (c * 7 + i * 3) % 23));
+                steps += 1;
+            }
+            t.reset();
+            let raw: Vec<u64> = t.raw().iter().map(|v| v.to_b()).collect();
+            if raw != fresh || t.get_max_value().to_b() != V::get_max().to_b() {
+                return Err(format!("m={}: after {} cycles of (3 updates, reset) the tracker differs from a new one", m, c + 1));
+            }
+        }
+        Ok(steps)
+    });
+    match r {
+        Ok(x) => x,
+        Err(p) => Err(format!("m={}: panic in a long history of updates and resets: {}", m, p)),
+    }
+}
+
 fn large_sizes(ctx: &Ctx, thorough: bool) -> (usize, u64) {
     let mut sizes: Vec<usize> = (9..=300).collect();
     for k in 9..=17u32 {
@@ -454,6 +480,19 @@ fn large_sizes(ctx: &Ctx, thorough: bool) -> (usize, u64) {
                     if !reported {
                         reported = true;
                         ctx.violation(&format!("large-size:{}", vt), &format!("{} tracker, {}", vt, w), json!({"kind": "large", "vtype": vt, "m": m}));
+                    }
+                }
+            }
+        }
+    }
+    for m in [1usize, 2, 3, 5, 8] {
+        for (vt, r) in [("f64", long_reset_history::<f64>(m, &|x| x as f64 * 0.5)), ("u32", long_reset_history::<u32>(m, &|x| x as u32))] {
+            match r {
+                Ok(n) => steps += n,
+                Err(w) => {
+                    if !reported {
+                        reported = true;
+                        ctx.violation(&format!("long-history:{}", vt), &format!("{} tracker, {}", vt, w), json!({"kind": "long-history", "vtype": vt, "m": m}));
                     }
                 }
             }
@@ -572,7 +611,7 @@ pub fn run(ctx: &Ctx) -> i32 {
         "spaces": spaces,
         "direct_sequences_from_new": {"sequences": stats.0, "steps": stats.1, "configs_m_depth": seqs},
         "search_run_twice_counts_equal": true,
-        "large_sizes": {"sizes": nsizes, "checked_steps": lsteps, "what": "every m in 9..=300, 2^k-1,2^k,2^k+1 for k=9..17, 1000, 5000, 50000, 100003 (thorough: 2^20-1..2^20+1, 3000001): one structured 6-phase history per size and value type from new(), every update checked (slot value, reported max against an ordered multiset of slot minima, is_update_possible), whole node array checked after each phase; not exhaustive in the history"},
+        "large_sizes": {"sizes": nsizes, "checked_steps": lsteps, "what": "every m in 9..=300, 2^k-1,2^k,2^k+1 for k=9..17, 1000, 5000, 50000, 100003 (thorough: 2^20-1..2^20+1, 3000001): one structured 6-phase history per size and value type from new(), every update checked (slot value, reported max against an ordered multiset of slot minima, is_update_possible), whole node array checked after each phase; plus 70000 cycles of (3 updates, reset) for m in {1,2,3,5,8} with the node array compared with a new tracker after every reset; not exhaustive in the history"},
     });
     ctx.finish(
         "model_checking",
@@ -587,6 +626,13 @@ pub fn run(ctx: &Ctx) -> i32 {
 
 pub fn replay(_ctx: &Ctx, case: &Value) -> Result<(bool, String), String> {
     let m = case["m"].as_u64().ok_or("m")? as usize;
+    if case["kind"].as_str() == Some("long-history") {
+        let r = if case["vtype"].as_str() == Some("f64") { long_reset_history::<f64>(m, &|x| x as f64 * 0.5) } else { long_reset_history::<u32>(m, &|x| x as u32) };
+        return Ok(match r {
+            Ok(n) => (false, format!("{} steps fine", n)),
+            Err(w) => (true, w),
+        });
+    }
     if case["kind"].as_str() == Some("large") {
         let r = if case["vtype"].as_str() == Some("f64") { large_size_history::<f64>(m, &|x| x as f64 * 0.5) } else { large_size_history::<u32>(m, &|x| x as u32) };
         return Ok(match r {
